@@ -7,6 +7,7 @@ package gabi
 import (
 	"github.com/privacybydesign/gabi/internal/simhook"
 	"slices"
+	"sync"
 
 	"github.com/go-errors/errors"
 	"github.com/privacybydesign/gabi/big"
@@ -23,7 +24,18 @@ type Credential struct {
 	Attributes           []*big.Int          `json:"attributes"`
 	NonRevocationWitness *revocation.Witness `json:"nonrevWitness,omitempty"`
 
-	nonrevCache chan *NonRevocationProofBuilder
+	nonrevCache     chan *NonRevocationProofBuilder
+	nonrevCacheOnce sync.Once
+}
+
+// nonrevBuilderCache returns the (lazily created) 1-buffered cache of prepared nonrevocation
+// proof builders. The cache is created exactly once, also when NonrevPrepareCache() and
+// CreateDisclosureProof() run concurrently on a shared Credential.
+func (ic *Credential) nonrevBuilderCache() chan *NonRevocationProofBuilder {
+	ic.nonrevCacheOnce.Do(func() {
+		ic.nonrevCache = make(chan *NonRevocationProofBuilder, 1)
+	})
+	return ic.nonrevCache
 }
 
 // DisclosureProofBuilder is an object that holds the state for the protocol to
@@ -203,7 +215,7 @@ func (ic *Credential) nonrevConsumeBuilder() (*NonRevocationProofBuilder, error)
 	// lest we totally break security: reusing randomizers in a second session makes it possible
 	// for the verifier to compute our revocation witness e from the proofs
 	select {
-	case b := <-ic.nonrevCache:
+	case b := <-ic.nonrevBuilderCache():
 		simhook.Yield("nonrevConsumeBuilder:received")
 		return b, b.UpdateCommit(ic.NonRevocationWitness)
 	default:
@@ -219,14 +231,12 @@ func (ic *Credential) NonrevPrepareCache() error {
 		return nil
 	}
 	simhook.Yield("NonrevPrepareCache:before-niltest")
-	if ic.nonrevCache == nil {
-		ic.nonrevCache = make(chan *NonRevocationProofBuilder, 1)
-		simhook.Yield("NonrevPrepareCache:after-make")
-	}
+	cache := ic.nonrevBuilderCache()
+	simhook.Yield("NonrevPrepareCache:after-make")
 	var b *NonRevocationProofBuilder
 	var err error
 	select {
-	case b = <-ic.nonrevCache:
+	case b = <-cache:
 		simhook.Yield("NonrevPrepareCache:received")
 		Logger.Trace("updating existing nonrevocation commitment")
 		err = b.UpdateCommit(ic.NonRevocationWitness)
@@ -242,7 +252,7 @@ func (ic *Credential) NonrevPrepareCache() error {
 	// if the channel has already been populated by another goroutine in the meantime we just discard
 	simhook.Yield("NonrevPrepareCache:before-putback")
 	select {
-	case ic.nonrevCache <- b:
+	case cache <- b:
 	default:
 	}
 
